@@ -821,11 +821,12 @@ def _run_with_sources(c, csv_dir, sources, signals_factory=None, alpha_factory=N
     with ob.installed():
         sess = sr.build_session(c, csv_dir, signals_factory, alpha_factory, data_sources=sources, data_handler=data_handler)
         sess.qts.portfolio_construction_model = sr._PcmProxy(sess.qts.portfolio_construction_model, out)
+        sess.sim_engine = sr.EventClock(sess.sim_engine)
         try:
             with sr.quiet(c):
                 sess.run(results=False)
         except Exception as e:
-            out.failure = (type(e).__name__, minutes(sess.broker.current_dt))
+            out.failure = (type(e).__name__, minutes(sess.sim_engine.last if sess.sim_engine.last is not None else sess.broker.current_dt))
         _m, fills = ob.take()
     out.curve = [(minutes(t), sr.fx(v)) for t, v in sess.equity_curve]
     out.fills = [(minutes(f["t"]), f["asset"], int(f["qty"]), sr.fx(f["px"]), sr.fx(f["comm"])) for f in fills]
